@@ -34,6 +34,19 @@ initial states), "mix" cases propagate all pairwise equal mixtures of these stat
   (keys prefixed units-context/<calls>-inside-<units>/) and the stored data must equal those of
   the same calls made outside any context (class R).
 
+  basis context of the call (bctx on closed cases): propagate (density matrix AND state vector,
+  rotating and laboratory frame) is called INSIDE `with eigenbasis_of(X)`, X = the Hamiltonian of
+  the propagator ("H"), another real symmetric operator ("other") or another complex Hermitian
+  operator ("otherC"); initial state objects are created outside and every result is read after
+  leaving the context.  Every clause of the closed section applies unchanged (keys prefixed
+  basis-context/propagate-inside-eigenbasis-of-<X>/), the stored data must equal those of the same
+  calls made outside (class R), and the state stored at index 0 must be the input state.
+  conversion direction (every rotating-frame case of every section): convert_from_RWA and
+  convert_to_RWA are inverse to each other on the evolution objects in both orders (class R,
+  flags included); closed cases additionally take the LABORATORY-frame propagation (density
+  matrix and state vector) to the rotating frame with convert_to_RWA: valid states, equal to the
+  exact rotating-frame dynamics and to the library's rotating-frame propagation.
+
 Oracles (reference model mc/refmodels/gksl.py, numpy/scipy only):
   R  trace = 1 and Hermiticity at every stored time: |dev| <= 1e-10 * max(1, max|rho|)
   T  b[i] = a-priori truncation bound of the declared scheme at stored time i,
@@ -106,10 +119,13 @@ def _ctx(case, site):
 
 
 def _ctx_prefix(case):
+    pre = ""
+    if case.get("bctx", "none") != "none":
+        pre = "basis-context/propagate-inside-eigenbasis-of-%s/" % case["bctx"]
     sites = case.get("ctx_sites", "none")
     if sites == "none":
-        return ""
-    return "units-context/%s-inside-%s/" % (
+        return pre
+    return pre + "units-context/%s-inside-%s/" % (
         "+".join(CTX_SITE_NAMES[x] for x in sites.split("+")), CTX_UNIT_LABELS[case["ctx_units"]])
 
 
@@ -117,7 +133,47 @@ def _no_ctx(case):
     c = dict(case)
     c.pop("ctx_sites", None)
     c.pop("ctx_units", None)
+    c.pop("bctx", None)
     return c
+
+
+# basis context of the propagate call: `with eigenbasis_of(X)`
+BCTX = ("H", "other", "otherC")
+
+
+def other_operator(d, kind):
+    """A fully coupled, non-degenerate Hermitian d x d matrix that is NOT the Hamiltonian of any
+    case (real symmetric for 'other', complex Hermitian for 'otherC'); a fixed formula."""
+    A = numpy.zeros((d, d), dtype=complex if kind == "otherC" else float)
+    for i in range(d):
+        A[i, i] = 0.37 * i - 0.05 * i * i
+        for j in range(i + 1, d):
+            x = 0.11 + 0.04 * (i + 2 * j) * (-1) ** (i + j)
+            if kind == "otherC":
+                A[i, j] = x * numpy.exp(1j * (0.7 + 0.9 * i - 0.4 * j))
+                A[j, i] = numpy.conj(A[i, j])
+            else:
+                A[i, j] = A[j, i] = x
+    ev = numpy.linalg.eigvalsh(A)
+    off = numpy.abs(A - numpy.diag(numpy.diag(A)))
+    if numpy.min(numpy.diff(ev)) < 1e-3 or numpy.min(off + numpy.eye(d)) < 1e-3:
+        raise isolation.HarnessError("other_operator(%d, %s) degenerate or not fully coupled"
+                                     % (d, kind))
+    return A
+
+
+def _bctx(case, ham):
+    """Context manager around a propagate call: eigenbasis_of(X) when the case puts the call
+    inside a basis context (a fresh context object and, for X != H, a fresh operator per call)."""
+    import contextlib
+    b = case.get("bctx", "none")
+    if b == "none":
+        return contextlib.nullcontext()
+    from quantarhei import eigenbasis_of
+    if b == "H":
+        return eigenbasis_of(ham)
+    from quantarhei.qm.hilbertspace.operators import SelfAdjointOperator
+    return eigenbasis_of(SelfAdjointOperator(data=other_operator(ham.dim, b)))
 
 
 def all_unit_sets(d, maxsize=2):
@@ -323,7 +379,7 @@ def propagate_dm(case, ta, ham, rho0, tensor=None, pdeph=None):
     with _ctx(case, "build"):
         pr = ReducedDensityMatrixPropagator(ta, ham, **kw)
     rho = ReducedDensityMatrix(data=numpy.array(rho0, dtype=complex))
-    with _ctx(case, "prop"):
+    with _ctx(case, "prop"), _bctx(case, ham):
         ev = pr.propagate(rho, method="short-exp-%d" % case["order"], Nref=case["nref"])
     return ev
 
@@ -334,6 +390,52 @@ def from_rwa(case, ev, ham):
         ev.convert_from_RWA(ham)
 
 
+def to_rwa(case, ev, ham):
+    """convert_to_RWA (the other direction of the conversion) at the call site 'conv'."""
+    with _ctx(case, "conv"):
+        ev.convert_to_RWA(ham)
+
+
+def _maxdev(a, b):
+    """max |a - b| per stored index (inf for shape mismatch / non-finite data)."""
+    a, b = numpy.asarray(a), numpy.asarray(b)
+    if a.shape != b.shape or not numpy.all(numpy.isfinite(a)):
+        return numpy.array([numpy.inf])
+    return numpy.max(numpy.abs((a - b).reshape(a.shape[0], -1)), axis=1)
+
+
+def check_round_trip(book, case, kind, tag, lab, ev, ham, raw, conv):
+    """Conversion direction, on an evolution object that was computed in the rotating frame
+    (data raw) and has been converted to the laboratory frame (data conv): convert_to_RWA takes
+    it back to the rotating-frame data, sets the flag, a second convert_to_RWA does nothing, and
+    convert_from_RWA gives the laboratory-frame data again (all class R: the conversions are
+    multiplications by phase factors of modulus one)."""
+    sc = max(1.0, float(numpy.max(numpy.abs(raw))))
+    to_rwa(case, ev, ham)
+    if not bool(getattr(ev, "is_in_rwa", False)):
+        book.check("rwa-direction", "rwa/%s/to-rwa/flag-not-set/%s" % (kind, tag), [1.0], 0.0,
+                   "evolution converted by convert_to_RWA is not flagged is_in_rwa")
+    book.check("rwa-direction", "rwa/%s/round-trip/from-then-to-not-identity/%s" % (kind, tag),
+               _maxdev(numpy.array(ev.data), raw), RTOL * sc,
+               "rotating-frame evolution after convert_from_RWA followed by convert_to_RWA "
+               "differs from the rotating-frame data it started from (state %s)" % lab,
+               {"state": lab})
+    to_rwa(case, ev, ham)
+    book.check("rwa-direction", "rwa/%s/to-rwa/applied-twice/%s" % (kind, tag),
+               _maxdev(numpy.array(ev.data), raw), RTOL * sc,
+               "convert_to_RWA on an evolution that is already in the rotating frame changed "
+               "its data (state %s)" % lab, {"state": lab})
+    from_rwa(case, ev, ham)
+    if bool(getattr(ev, "is_in_rwa", False)):
+        book.check("rwa-direction", "rwa/%s/round-trip/flag-still-set/%s" % (kind, tag), [1.0], 0.0,
+                   "evolution converted to the rotating frame and back by convert_from_RWA is "
+                   "still flagged is_in_rwa")
+    book.check("rwa-direction", "rwa/%s/round-trip/from-to-from-differs/%s" % (kind, tag),
+               _maxdev(numpy.array(ev.data), conv), RTOL * sc,
+               "laboratory-frame data after convert_to_RWA followed by convert_from_RWA differ "
+               "from the laboratory-frame data before (state %s)" % lab, {"state": lab})
+
+
 def propagate_sv(case, ta, ham, psi0):
     from quantarhei import StateVector, StateVectorPropagator
     with _ctx(case, "build"):
@@ -341,8 +443,9 @@ def propagate_sv(case, ta, ham, psi0):
         if case["nref"] > 1:
             pr.setDtRefinement(case["nref"])
     psi = StateVector(data=numpy.array(psi0, dtype=complex))
-    with _ctx(case, "prop"):
-        return pr.propagate(psi, L=case["order"])
+    with _ctx(case, "prop"), _bctx(case, ham):
+        sev = pr.propagate(psi, L=case["order"])
+    return sev
 
 
 def sv_routes(sev, which=SV_ROUTES):
@@ -475,6 +578,14 @@ def _fro(X):
     return numpy.sqrt(numpy.sum(numpy.abs(X.reshape(X.shape[0], -1)) ** 2, axis=1))
 
 
+def _maxfro(a, b):
+    """Frobenius norm of a - b per stored index (inf for a shape mismatch)."""
+    a, b = numpy.asarray(a), numpy.asarray(b)
+    if a.shape != b.shape:
+        return numpy.full(b.shape[0], numpy.inf)
+    return _fro(a - b)
+
+
 def _digest(D):
     D = numpy.asarray(D)
     if not numpy.all(numpy.isfinite(D)):
@@ -514,7 +625,7 @@ def eval_closed(case):
     m = model(case)
     d, Nt, dt = m["d"], m["Nt"], m["dt"]
     book = Book(_ctx_prefix(case))
-    in_ctx = case.get("ctx_sites", "none") != "none"
+    in_ctx = case.get("ctx_sites", "none") != "none" or case.get("bctx", "none") != "none"
     case0 = _no_ctx(case)
     labels, psis, rhos = _states(case, d)
     if not in_ctx:
@@ -533,14 +644,15 @@ def eval_closed(case):
     nref, order = case["nref"], case["order"]
     h = dt / nref
 
-    def _rwa_key(kind, conv_arr, lab_arr, tol, base):
+    def _rwa_key(kind, conv_arr, lab_arr, tol, base, sgn=1):
         """A time axis that does not start at zero: the library anchors the rotating frame at the
         absolute time 0 without rotating the initial state, so the converted result is the
-        laboratory dynamics conjugated by the constant phase exp(-i Omega t0).  Exactly that
-        signature gets its own key; anything else keeps the generic one."""
+        laboratory dynamics conjugated by the constant phase exp(-i Omega t0) (sgn=-1, the
+        direction convert_to_RWA: the rotating-frame dynamics conjugated by exp(+i Omega t0)).
+        Exactly that signature gets its own key; anything else keeps the generic one."""
         if t0 == 0.0:
             return base
-        ph = numpy.exp(-1j * om * t0)
+        ph = numpy.exp(-1j * sgn * om * t0)
         if kind == "dm":
             anch = ph[None, :, None] * lab_arr * numpy.conj(ph)[None, None, :]
         else:
@@ -577,12 +689,16 @@ def eval_closed(case):
     Hlab = m["H"]
     hn = float(numpy.linalg.norm(Hlab))
     digest = []
+    sv_lab_refused = 0
     for k, lab in enumerate(labels):
         rho0, psi0 = rhos[k], psis[k]
         # ---------------- density matrix -----------------------------------------------
         ev = propagate_dm(case, ta, ham, rho0)
         raw = numpy.array(ev.data, copy=True)
         _validity(book, tag + "/raw", lab, raw)
+        book.check("initial-state", "initial-state/dm/%s" % tag, _maxdev(raw[:1], rho0[None]), RTOL,
+                   "density matrix stored at index 0 is not the initial density matrix handed to "
+                   "propagate (state %s)" % lab, {"state": lab})
         ex = ref["exact"][:, :, k].reshape(Nt, d, d)
         tolT = 2.0 * b_dm + RTOL
         book.check("exact", "exact/%s/dm" % tag, _fro(raw - ex), tolT,
@@ -623,7 +739,7 @@ def eval_closed(case):
                     with _ctx(case, "set"):
                         h2.set_rwa(list(RWA_BLOCKS[case["rwa"]]))
                     rr2 = _R(data=numpy.array(rho0, dtype=complex))
-                    with _ctx(case, "prop"):
+                    with _ctx(case, "prop"), _bctx(case, h2):
                         e2 = p2.propagate(rr2, method="short-exp-%d" % order, Nref=nref)
                     from_rwa(case, e2, h2)
                     book.check("rwa-dm", "rwa/dm/propagator-reused-after-set_rwa/vs-exact-lab",
@@ -642,6 +758,37 @@ def eval_closed(case):
                        "RWA density matrix converted back differs from the library's own "
                        "laboratory-frame propagation (state %s)" % lab, {"state": lab},
                        informative=(b_dm[-1] + reflab["b"][-1]) <= INFORMATIVE)
+            # conversion direction: both round trips on the rotating-frame evolution, then the
+            # laboratory-frame propagation taken TO the rotating frame
+            check_round_trip(book, case, "dm", tag, lab, ev, ham, raw, conv)
+            to_rwa(case, evl, ham)
+            if not bool(getattr(evl, "is_in_rwa", False)):
+                book.check("rwa-direction", "rwa/dm/to-rwa/flag-not-set/%s/lab-propagation" % tag,
+                           [1.0], 0.0, "laboratory-frame evolution converted by convert_to_RWA "
+                           "is not flagged is_in_rwa")
+            torot = numpy.array(evl.data, copy=True)
+            _validity(book, tag + "/lab-to-rwa", lab, torot)
+            tolL = 2.0 * reflab["b"] + RTOL
+            book.check("rwa-direction", _rwa_key("dm", torot, ex, tolL,
+                                                 "rwa/dm/to-rwa/vs-exact-rotating", sgn=-1),
+                       _maxfro(torot, ex), tolL,
+                       "laboratory-frame density matrix evolution converted by convert_to_RWA "
+                       "differs from the exact rotating-frame dynamics (state %s)" % lab,
+                       {"state": lab}, informative=reflab["b"][-1] <= INFORMATIVE)
+            book.check("rwa-direction", _rwa_key("dm", torot, raw, tol2,
+                                                 "rwa/dm/to-rwa/vs-library-rotating", sgn=-1),
+                       _maxfro(torot, raw), tol2,
+                       "laboratory-frame density matrix evolution converted by convert_to_RWA "
+                       "differs from the library's own rotating-frame propagation (state %s)"
+                       % lab, {"state": lab},
+                       informative=(b_dm[-1] + reflab["b"][-1]) <= INFORMATIVE)
+            from_rwa(case, evl, ham)
+            book.check("rwa-direction", "rwa/dm/round-trip/to-then-from-not-identity/%s" % tag,
+                       _maxdev(numpy.array(evl.data), labD),
+                       RTOL * max(1.0, float(numpy.max(numpy.abs(labD)))),
+                       "laboratory-frame evolution after convert_to_RWA followed by "
+                       "convert_from_RWA differs from the laboratory-frame data it started from "
+                       "(state %s)" % lab, {"state": lab})
         else:
             conv = raw
             if getattr(ev, "is_in_rwa", False):
@@ -677,6 +824,10 @@ def eval_closed(case):
             book.check("norm", "conserve/norm/sv/%s" % tag, [numpy.inf], RTOL,
                        "non-finite state vector")
             continue
+        book.check("initial-state", "initial-state/sv/%s" % tag,
+                   _maxdev(sraw[:1], numpy.asarray(psi0)[None]), RTOL,
+                   "state vector stored at index 0 is not the initial state vector handed to "
+                   "propagate (state %s)" % lab, {"state": lab})
         nrm = numpy.real(numpy.sum(numpy.abs(sraw) ** 2, axis=1))
         book.check("norm", "conserve/norm/sv/%s" % tag, numpy.abs(nrm - 1.0),
                    2.0 * (2.0 * b_sv + b_sv ** 2) + RTOL,
@@ -761,6 +912,40 @@ def eval_closed(case):
                        "RWA state vector converted back differs from the library's own "
                        "laboratory-frame propagation (state %s)" % lab, {"state": lab},
                        informative=(b_sv[-1] + b_sv_lab[-1]) <= INFORMATIVE)
+            # conversion direction, state vectors
+            check_round_trip(book, case, "sv", tag, lab, sev, ham, sraw, sconv)
+            if not hasattr(sl, "is_in_rwa"):
+                # a laboratory-frame StateVectorEvolution without a frame flag (trees before
+                # /repo a959609): its convert_to_RWA refuses with AttributeError; counted
+                sv_lab_refused += 1
+            else:
+                to_rwa(case, sl, ham)
+                if not bool(sl.is_in_rwa):
+                    book.check("rwa-direction", "rwa/sv/to-rwa/flag-not-set/%s/lab-propagation"
+                               % tag, [1.0], 0.0, "laboratory-frame state-vector evolution "
+                               "converted by convert_to_RWA is not flagged is_in_rwa")
+                storot = numpy.array(sl.data, copy=True)
+                tolS = 2.0 * b_sv_lab + RTOL
+                book.check("rwa-direction", _rwa_key("sv", storot, psi_ex, tolS,
+                                                     "rwa/sv/to-rwa/vs-exact-rotating", sgn=-1),
+                           _maxfro(storot, psi_ex), tolS,
+                           "laboratory-frame state-vector evolution converted by convert_to_RWA "
+                           "differs from the exact rotating-frame dynamics (state %s)" % lab,
+                           {"state": lab}, informative=b_sv_lab[-1] <= INFORMATIVE)
+                tolS2 = 2.0 * (b_sv + b_sv_lab) + RTOL
+                book.check("rwa-direction", _rwa_key("sv", storot, sraw, tolS2,
+                                                     "rwa/sv/to-rwa/vs-library-rotating", sgn=-1),
+                           _maxfro(storot, sraw), tolS2,
+                           "laboratory-frame state-vector evolution converted by convert_to_RWA "
+                           "differs from the library's own rotating-frame propagation (state %s)"
+                           % lab, {"state": lab},
+                           informative=(b_sv[-1] + b_sv_lab[-1]) <= INFORMATIVE)
+                from_rwa(case, sl, ham)
+                book.check("rwa-direction", "rwa/sv/round-trip/to-then-from-not-identity/%s" % tag,
+                           _maxdev(numpy.array(sl.data), slab), RTOL,
+                           "laboratory-frame state-vector evolution after convert_to_RWA followed "
+                           "by convert_from_RWA differs from the data it started from (state %s)"
+                           % lab, {"state": lab})
         if k < 3:
             digest.append(_digest(conv))
     coupled = bool(numpy.max(numpy.abs(Hlab - numpy.diag(numpy.diag(Hlab)))) > 0)
@@ -771,7 +956,8 @@ def eval_closed(case):
             # propagations (dm, sv [, lab dm, lab sv]) + route evaluations (raw [, converted])
             "violations": book.violations(),
             "n": len(labels) * ((6 if rwa else 3) + (2 if in_ctx else 0)) - 1,
-            "info": {"worst": book.worst, "sec": "closed", "informative": nontrivial}}
+            "info": {"worst": book.worst, "sec": "closed", "informative": nontrivial,
+                     "sv_lab_to_rwa_refused": sv_lab_refused, "bctx": case.get("bctx", "none")}}
 
 
 UNBUILDABLE = (
@@ -873,6 +1059,8 @@ def eval_lindblad(case):
                        "truncation bound (state %s, order %d, Nref %d, generator %s)"
                        % (lab, case["order"], case["nref"], case["gen"]), {"state": lab},
                        informative=inform)
+            # conversion direction: convert_to_RWA / convert_from_RWA are inverse to each other
+            check_round_trip(book, case, "dm", tag, lab, ev, ham, raw, conv)
         else:
             conv = raw
         mine = numpy.array([G.min_eigenvalue(x) for x in conv])
@@ -990,6 +1178,7 @@ def eval_redfield(case):
             if in_ctx:
                 ev0.convert_from_RWA(ham0)
                 _independent(book, tag + "/dm-converted", lab, conv, numpy.array(ev0.data))
+            check_round_trip(book, case, "dm", tag, lab, ev, ham, raw, conv)
         if k in (1, 2, d):
             digest.append(_digest(raw))
     return {"nontrivial": True, "outcome": [tag, n, case["order"], case["nref"], digest],
@@ -1132,6 +1321,14 @@ def cases(tier):
            "order": [4] if quick else ORDERS, "nref": [1] if quick else [1, 2], "t0": [0.0],
            "ctx_sites": sites, "ctx_units": units}
     cs += product(dom, lambda c: ok_closed(c) and ok_ctx(c))
+    # ---- basis context of the call: propagate inside `with eigenbasis_of(X)` ---------------------
+    # a rotating frame is crossed with X = H only (run.assumptions)
+    dom = {"sec": ["closed"], "dim": [2, 3] if quick else [2, 3, 4],
+           "ham": ["coupled", "diag", "degenerate", "cross"],
+           "scale": [1.0] if quick else [1.0, 0.25], "axis": [AX_SHORT],
+           "rwa": ["off", "ge", "one", "ge2"], "order": [4] if quick else ORDERS,
+           "nref": [1] if quick else [1, 2], "t0": [0.0], "bctx": list(BCTX)}
+    cs += product(dom, lambda c: ok_closed(c) and (c["rwa"] == "off" or c["bctx"] == "H"))
     for d, gen, orders in ((3, "12+21", ORDERS), (2, "01", [4]), (4, "12+21", [4])):
         if quick and d != 3:
             continue
@@ -1180,14 +1377,25 @@ def run(run):
                 "solution.  Calling-context sub-products (closed | lindblad+dephasing | Redfield) x "
                 "ctx_sites %r x ctx_units: the named calls are made inside `with "
                 "energy_units(u)`, all clauses of the section apply and the stored data must equal "
-                "those of the same calls made outside (class R).  "
+                "those of the same calls made outside (class R).  Basis-context sub-product "
+                "(closed) x bctx %r: every propagate call (density matrix and state vector, "
+                "rotating and laboratory frame) is made inside `with eigenbasis_of(X)` (X = the "
+                "Hamiltonian / another real symmetric / another complex Hermitian operator), results "
+                "are read after leaving the context; all clauses of the closed section, equality "
+                "with the calls made outside, stored state at index 0 = input state.  Conversion "
+                "direction: every rotating-frame evolution of every section goes rotating -> "
+                "laboratory -> rotating (-> rotating again) -> laboratory through convert_from_RWA "
+                "/ convert_to_RWA (class R identities, flags); closed cases convert the "
+                "laboratory-frame propagation with convert_to_RWA and compare it with the exact "
+                "and the propagated rotating-frame dynamics.  "
                 "RWA cases are in the product only "
                 "when [L, ad_Omega] = 0 (rotating-frame calculation is exact).  non-trivial = the "
                 "generator acts (coupling or >= 2 distinct energies for closed systems, a non-zero "
                 "jump/dephasing rate otherwise) AND the a-priori truncation bound at the final "
                 "time is <= %g (so the T-class oracle discriminates); Redfield cases (class R "
                 "clauses only) are all non-trivial; unbuildable configurations are trivial"
-                % (SV_MODULI, SV_PHASES, sorted(RWA_BLOCKS), ctx_sites_domain(), INFORMATIVE))
+                % (SV_MODULI, SV_PHASES, sorted(RWA_BLOCKS), ctx_sites_domain(), list(BCTX),
+                   INFORMATIVE))
     run.assumptions = [
         "reference: GKSL Liouvillian from Kronecker products, scipy.linalg.expm "
         "(mc/refmodels/gksl.py); Gaussian dephasing reference = 4th order Magnus, 4 sub-steps, own "
@@ -1209,6 +1417,24 @@ def run(run):
         "system, `with energy_units('1/cm'): prop.propagate(rho0)` gives NaN); these two call "
         "sites are explored only with VERIF_C02_CALL_CONTEXT=1 (now: %s)"
         % ("on" if CTX_CALLS_TOO else "off"),
+        "basis context: initial state objects, Hamiltonian and propagator are created outside "
+        "any basis context, only propagate(...) is called inside `with eigenbasis_of(X)`, "
+        "conversions and all reads happen after leaving it.  NOT claimed: a ROTATING-FRAME "
+        "propagation called inside the eigenbasis of an operator other than the Hamiltonian - "
+        "Hamiltonian.get_RWA_data() subtracts the frame frequencies from the diagonal of the "
+        "matrix in the CURRENT basis, which is the rotating-frame Hamiltonian only when the "
+        "basis change commutes with the frame operator (true for eigenbasis_of(H) of every "
+        "admissible case here, block-diagonal S; e.g. 3 levels, H=diag(0,.16,.22), "
+        "set_rwa([0,1]), propagate inside eigenbasis_of(fully coupled operator): result differs "
+        "from the call outside by O(1)); rwa != off is therefore crossed with X = H only",
+        "conversion direction: convert_to_RWA(ham) is called with the Hamiltonian that defines "
+        "the frame (set_rwa done).  Before /repo a959609 a laboratory-frame StateVectorEvolution "
+        "carried no is_in_rwa attribute and its convert_to_RWA / convert_from_RWA raised "
+        "AttributeError (a refusal, not wrong data): the clause 'laboratory-frame state-vector "
+        "evolution -> convert_to_RWA' is applied whenever the evolution carries the flag (every "
+        "one since a959609) and refusals are counted (note sv_lab_to_rwa_refused, 0 on HEAD); "
+        "the state-vector round trips on rotating-frame evolutions and all density-matrix "
+        "directions are always applied",
         "laboratory-frame reference of an admissible RWA Lindblad case: powers of expm(L_lab dt) "
         "(constant generators; cross-checked against the rotating-frame reference carried to the "
         "laboratory frame) or the carried rotating-frame Magnus reference (Gaussian dephasing)",
@@ -1221,10 +1447,18 @@ def run(run):
                   "rwa blocks": {k: list(v) for k, v in RWA_BLOCKS.items()},
                   "ctx_sites": ctx_sites_domain(),
                   "ctx_units": ["1/cm", "eV"] if run.tier == "quick" else ["1/cm", "eV", "THz", "int"],
+                  "bctx": ["none"] + list(BCTX),
+                  "conversion directions": ["from_RWA", "to_RWA", "from.to", "to.from", "to.to"],
                   "cases": len(cs)}
     infos = run_grid(run, cs, eval_case)
     worst, unb, secs = {}, {}, {}
+    refused, bsec = 0, {}
     for i in infos:
+        refused += int(i.get("sv_lab_to_rwa_refused", 0) or 0)
+        if i.get("bctx", "none") != "none":
+            bs = bsec.setdefault(i["bctx"], {"cases": 0, "informative": 0})
+            bs["cases"] += 1
+            bs["informative"] += 1 if i.get("informative") else 0
         if "unbuildable" in i:
             unb[i["unbuildable"]] = unb.get(i["unbuildable"], 0) + 1
         s = secs.setdefault(i.get("sec", "?"), {"cases": 0, "informative": 0})
@@ -1236,4 +1470,5 @@ def run(run):
             w[1] = max(w[1], e)
     run.note(worst_use_of_tolerance_and_abs_deviation_per_clause={
         c: ["%.3g" % w[0], "%.3g" % w[1]] for c, w in sorted(worst.items())},
-        unbuildable_counted=unb, per_section=secs)
+        unbuildable_counted=unb, per_section=secs, per_basis_context=bsec,
+        sv_lab_to_rwa_refused=refused)
